@@ -163,15 +163,31 @@ def r13_3(ck: Check) -> None:
     sp2 = Spec(s2, ("self", "cs"))
     pool = sp2.term("self.transaction_pool")
     stores = [e for e in s2.events if e.kind == "store" and e.term == pool]
-    isv = q2 + ".is_valid"
-    want = ("comp", "list", ("e", pool, "elem"), ((pool, (("call", ("g", isv), (("e", pool, "elem"),), ()),)),))
+    # the filter is whatever predicate the comprehension calls with the pool element (a nested function, a private method, ...)
     construct = "_cleanup: pool := [t for t in pool if is_valid(t)] (filtering cannot create a conflict; evicts only what the validator rejects)"
-    if len(stores) == 1 and stores[0].value == want and not residual(stores[0], ()):
-        ck.ok("R13.3", construct, "", stores[0].loc)
+    isv = None
+    elem = ("e", pool, "elem")
+    if len(stores) == 1 and not residual(stores[0], ()):
+        v = stores[0].value
+        if v is not None and v[0] == "comp" and v[1] == "list" and v[2] == elem and len(v[3]) == 1 and v[3][0][0] == pool and len(v[3][0][1]) == 1:
+            f = v[3][0][1][0]
+            if f[0] == "call" and f[2] == (elem,) and not f[3]:
+                if f[1][0] == "g" and f[1][1] in ck.repo.functions:
+                    isv, recv = f[1][1], None
+                elif f[1][0] == "a" and f[1][1] == sp2.term("self"):
+                    mi = ck.repo.find_method(CM, f[1][2])
+                    if mi is not None:
+                        isv, recv = mi.qualname, "self"
+    if isv is not None:
+        ck.ok("R13.3", construct, "filter: %s" % short(isv), stores[0].loc)
     else:
         ck.violated("R13.3", construct, "pool is rebuilt as %s" % "; ".join(show(e.value)[:120] for e in stores), s2.fi.loc)
+        return
     s3 = ck.summ(isv, 0)
-    sp3 = Spec(s3, ("t",), extra={"self": ("v", "self")})
+    if recv is None:
+        sp3 = Spec(s3, ("t",), extra={"self": ("v", "self")})
+    else:
+        sp3 = Spec(s3, ("self", "t"))
     calls, near = find_calls(s3, CONS + "validate_non_coinbase_transaction_in_coinstate",
                              [sp3.term("t"), sp3.term("self.coinstate.current_chain_hash"), sp3.term("self.coinstate")], (), (), None, True)
     rets = s3.returns()
